@@ -344,17 +344,22 @@ pub(crate) fn panicking_without_execution() -> bool {
         && (!Scheduler::is_in_execution() || !execution(|execution| execution.threads.is_active()))
 }
 
-pub fn thread_done() {
+/// Runs the destructors of the active thread's thread-locals.
+pub(crate) fn drop_thread_locals() {
     let locals = execution(|execution| {
         let thread = execution.threads.active_id();
 
-        trace!(?thread, "thread_done: drop locals");
+        trace!(?thread, "drop locals");
 
         execution.threads.active_mut().drop_locals()
     });
 
     // Drop outside of the execution context
     drop(locals);
+}
+
+pub fn thread_done() {
+    drop_thread_locals();
 
     execution(|execution| {
         let thread = execution.threads.active_id();
